@@ -6,7 +6,7 @@ from . import common
 
 
 # modules with a gen() that regenerates coq/theories/Gen/*.v from /repo
-GEN_MODULES = ["c20", "c12", "c13", "c02", "c01", "c05", "c06", "c07", "c08", "c10", "c19", "c03", "c18", "c17", "c15", "c09"]
+GEN_MODULES = ["c20", "c12", "c13", "c02", "c01", "c05", "c06", "c07", "c08", "c10", "c19", "c03", "c18", "c17", "c15", "c09", "c11"]
 
 
 def main():
